@@ -65,8 +65,11 @@ CHECKS["C11"] = dict(
           "list is duplicate-free and contains every edge, the k-th new vertex is the midpoint of the k-th edge, vertex count grows by "
           "the edge count; triangle count quadruples, children follow parent order and use the midpoint vertices of their parent's edges; "
           "each child has exactly a quarter of the parent's cross product (same plane and winding; areas sum), children's cones sum to "
-          "the parent's (volume) and centres sum (centroid); refine(a+b) = refine b . refine a. Preservation of Euler characteristic, "
-          "closedness, manifoldness, orientedness, loop count and 'adjacency rebuilt' are decided by correspondence + oracles (partial)."),
+          "the parent's (volume) and centres sum (centroid); refine(a+b) = refine b . refine a. Topology: exact half-edge counts of the "
+          "children in terms of the parents, hence for every mesh without two triangles on the same vertex set the refined mesh is "
+          "oriented / edge-manifold / closed exactly when the original is (closedness without that hypothesis); the hypothesis cannot "
+          "be dropped (theorem with the witness of finding F25: tetrahedron + pillow). Euler characteristic, loop count and "
+          "'adjacency rebuilt' are decided by correspondence + oracles (partial)."),
     design="6/C11", technique="Coq proof (list lemmas, field identities) + vm_compute correspondence incl. exhaustive 4-vertex complexes")
 
 CHECKS["C13"] = dict(
